@@ -1,6 +1,7 @@
 package main
 
 import (
+	"os"
 	"fmt"
 	"go/types"
 	"strings"
@@ -344,6 +345,9 @@ func (x *Exec) externalCall(c *callCtx, name string) {
 	}
 	x.bumpAlloc(c.n, c.st)
 	for _, h := range x.prog.externalMods(c.common.Signature(), c.common.Args) {
+		if os.Getenv("GOVC_DEBUG_HAVOC") != "" {
+			fmt.Fprintf(os.Stderr, "havoc %s by external %s at %s\n", h, name, x.prog.pos(c.instr.Pos()))
+		}
 		x.havocVar(c.st, h)
 	}
 	// places passed by address (cells) may be written by the callee
@@ -596,6 +600,14 @@ func (x *Exec) builtinAppend(c *callCtx) {
 	}
 	r := Term{S: app("mk_Slice", arr, off, newLen, newCap), Sort: SSlice, T: c.argVals[0].Type()}
 	c.res = []Term{x.nameTerm(n, "appended", r)}
+	if k > 0 && k <= 8 && simpleConst(c.res[0].S) {
+		// seed the specification-level access terms of the appended cells (instances of the defining axiom of uf_at)
+		nh := x.get(st, h).S
+		for i := 0; i < k; i++ {
+			idx := plus(app("s.len", s.S), intLit(int64(i)))
+			n.assume(mkEq(x.elemAt(h, nh, c.res[0].S, idx, es), app("select", tArr, plus(app("s.off", t.S), intLit(int64(i))))))
+		}
+	}
 	if x.elemLinksOn() && simpleConst(heap) && simpleConst(c.res[0].S) {
 		// a consequence of the model above, stated for both triggers: the result has the old elements as its prefix
 		nh := x.get(st, h).S
